@@ -1,6 +1,9 @@
-/- Model driver for C16. `SCH e(d m y) t(d m y) numMonths cal conv backward adjTerm eom regen` -/
+/- Model driver for C16. `SCH e(d m y) t(d m y) numMonths cal conv backward adjTerm eom regen`;
+   `CDS s(d m y) m(d m y) numMonths cal conv backward` → payment | accrual start; `CDSE …` → accrual end;
+   `LEG e(d m y) t(d m y) numMonths cal conv backward eom lag` → accrual start | accrual end | payment -/
 import FinVerif.Driver.Util
 import FinVerif.Model.Schedule
+import FinVerif.Model.ScheduleUse
 open FinVerif FinVerif.Model FinVerif.Driver
 
 def showDates (l : List PyDate) : String := ",".intercalate (l.map (fun d => s!"{d.d}-{d.m}-{d.y}"))
@@ -15,6 +18,16 @@ def step (t : List String) : String :=
     | some [d1, m1, y1, d2, m2, y2, nm, cal, conv, bw] =>
       showExcept (fun r => showDates r.payment ++ " | " ++ showDates r.accrualStart)
         (cdsDates (mkDate d1 m1 y1) (mkDate d2 m2 y2) nm cal conv (bw = 1))
+    | _ => "bad-op"
+  | "CDSE" :: rest => match ints? rest with
+    | some [d1, m1, y1, d2, m2, y2, nm, cal, conv, bw] =>
+      showExcept (fun r => showDates r.accrualEnd)
+        (cdsDatesFull (mkDate d1 m1 y1) (mkDate d2 m2 y2) nm cal conv (bw = 1))
+    | _ => "bad-op"
+  | "LEG" :: rest => match ints? rest with
+    | some [d1, m1, y1, d2, m2, y2, nm, cal, conv, bw, eo, lag] =>
+      showExcept (fun r => showDates r.startAccrued ++ " | " ++ showDates r.endAccrued ++ " | " ++ showDates r.payment)
+        (legDates (mkDate d1 m1 y1) (mkDate d2 m2 y2) nm cal conv (bw = 1) (eo = 1) lag)
     | _ => "bad-op"
   | _ => "bad-op"
 
